@@ -2,6 +2,9 @@ pub mod c01;
 pub mod c02;
 pub mod c03;
 pub mod c04;
+pub mod c05;
+pub mod c06;
+pub mod c11;
 pub mod c12;
 pub mod c13;
 pub mod c15;
@@ -12,7 +15,7 @@ pub mod c18;
 use crate::engine::Property;
 
 pub fn all() -> Vec<Property> {
-    vec![c01::property(), c02::property(), c03::property(), c04::property(), c12::property(), c13::property(), c15::property(), c16::property(), c17::property(), c18::property()]
+    vec![c01::property(), c02::property(), c03::property(), c04::property(), c05::property(), c06::property(), c11::property(), c12::property(), c13::property(), c15::property(), c16::property(), c17::property(), c18::property()]
 }
 
 pub fn by_id(id: &str) -> Option<Property> {
